@@ -40,7 +40,7 @@ def cbmc_version():
 class Job:
     def __init__(self, name, engine, harness, entry, props, enforce=None, replace=(), defs=(),
                  loop_contracts=False, cbmc_args=(), timeout=600, mem_gb=6, tier="quick",
-                 unwindset=None, note="", expect_fail=(), nondet_static=False, gi_args=(), part=None, cc_args=()):
+                 unwindset=None, note="", expect_fail=(), nondet_static=False, gi_args=(), part=None, cc_args=(), portfolio=False):
         self.name = name
         self.engine = engine
         self.harness = harness          # path relative to VERIF
@@ -59,6 +59,7 @@ class Job:
         self.expect_fail = list(expect_fail)   # tags of must-fail (vacuity) obligations
         self.gi_args = list(gi_args)
         self.cc_args = list(cc_args)
+        self.portfolio = portfolio
         self.part = part                # (i, n): this job checks the i-th of n shares of the obligations
 
     def workdir(self):
@@ -73,6 +74,42 @@ def _limits(mem_gb):
         resource.setrlimit(resource.RLIMIT_AS, (lim, lim))
         os.setsid()
     return f
+
+
+def run_portfolio(cmds, timeout, mem_gb, stdout_paths):
+    """Start all commands; the first one that ends with a verdict (rc 0 or 10) wins, the others are killed.
+    Returns (index, rc, secs, timed_out)."""
+    t0 = time.time()
+    procs = []
+    for cmd, outp in zip(cmds, stdout_paths):
+        f = open(outp, "w")
+        procs.append((subprocess.Popen(cmd, stdout=f, stderr=subprocess.DEVNULL, preexec_fn=_limits(mem_gb)), f))
+    winner, rc = None, None
+    try:
+        while time.time() - t0 < timeout:
+            alive = 0
+            for i, (p, f) in enumerate(procs):
+                r = p.poll()
+                if r is None:
+                    alive += 1
+                elif r in (0, 10) and winner is None:
+                    winner, rc = i, r
+            if winner is not None or alive == 0:
+                break
+            time.sleep(0.5)
+    finally:
+        for p, f in procs:
+            if p.poll() is None:
+                try:
+                    os.killpg(p.pid, 9)
+                except Exception:
+                    p.kill()
+            p.wait()
+            f.close()
+    if winner is None:
+        timed_out = (time.time() - t0) >= timeout
+        return 0, procs[0][0].returncode, time.time() - t0, timed_out
+    return winner, rc, time.time() - t0, False
 
 
 def run_cmd(cmd, timeout, mem_gb, cwd=None, stdout_path=None):
@@ -230,7 +267,7 @@ def run_job(job, use_cache=True):
         res.update({"status": "undecided", "reason": "build: " + str(e)[-1500:], "log": log,
                     "wall_s": round(time.time() - t0, 2), "obligations": [], "n": 0, "n_ok": 0})
         return res
-    cb = ["cbmc", binary, "--json-ui"] + ([] if "--object-bits" in job.cbmc_args else ["--object-bits", "10"]) + job.cbmc_args
+    cb = ["cbmc", binary, "--json-ui", "--verbosity", "8"] + ([] if "--object-bits" in job.cbmc_args else ["--object-bits", "10"]) + job.cbmc_args
     if job.part:
         try:
             vac, names = list_properties(binary, job)
@@ -274,8 +311,20 @@ def run_job(job, use_cache=True):
         # the two needs > 15 min are solved by the other in < 1 min). Both are complete decision
         # procedures for the same formula, so whichever answers first decides.
         first_box = job.timeout if job.engine not in ("E1",) else min(job.timeout, max(240, job.timeout // 4))
-        rc, out, err, secs, to = run_cmd(cb, first_box, job.mem_gb, stdout_path=outp)
-        res["backend"] = "minisat2"
+        err = ""
+        if getattr(job, "portfolio", False):
+            # portfolio: minisat2 and cadical on the same instance at the same time, first verdict wins
+            outp2 = os.path.join(job.workdir(), "cbmc_cadical.json")
+            w, rc, secs, to = run_portfolio([cb, cb + ["--sat-solver", "cadical"]], job.timeout, job.mem_gb, [outp, outp2])
+            res["backend"] = "portfolio minisat2|cadical, answered by " + ("minisat2", "cadical")[w]
+            if w == 1:
+                os.replace(outp2, outp)
+                res["cbmc_cmd"] = " ".join(cb + ["--sat-solver", "cadical"])
+            out = None
+            first_box = job.timeout
+        else:
+            rc, out, err, secs, to = run_cmd(cb, first_box, job.mem_gb, stdout_path=outp)
+            res["backend"] = "minisat2"
         if to and first_box < job.timeout:
             cb2 = cb + ["--sat-solver", "cadical"]
             res["cbmc_cmd"] = " ".join(cb2)
@@ -288,6 +337,18 @@ def run_job(job, use_cache=True):
         if not to:
             results, verdict, msgs = parse_cbmc_json(outp)
         res["messages_tail"] = (msgs or "")[-1500:]
+        st = {}
+        m = re.search(r"size of program expression: (\d+) steps", msgs or "")
+        if m:
+            st["symex_steps"] = int(m.group(1))
+        m = re.search(r"Generated (\d+) VCC\(s\), (\d+) remaining", msgs or "")
+        if m:
+            st["vccs"] = int(m.group(1))
+        mm = re.findall(r"(\d+) variables, (\d+) clauses", msgs or "")
+        if mm:
+            st["sat_variables"] = max(int(a) for a, b in mm)
+            st["sat_clauses"] = max(int(b) for a, b in mm)
+        res["stats"] = st
         warn = [l for l in (msgs or "").splitlines()
                 if re.search(r"ignoring|no body for function|does not have a contract", l)]
         res["warnings"] = warn[:20]
